@@ -656,7 +656,14 @@ fn encode_probe(ctx: &mut Ctx, case: u64, w: &World, input: &Value) {
         Ok(Ok(bytes)) => {
             ctx.count("encode-probe:ok");
             if let Err(msg) = validate(&bytes) {
-                if msg.contains("instance not valid to be used as export") || msg.contains("resource types are not the same") {
+                // recorded finding of C01 (export() accepts an item whose type mentions types that have
+                // no name at the root of the composition): instances, and - through aliases of aliases -
+                // functions and types taken out of an aliased interface
+                let nested_alias_exported = w.m.nodes.values().any(|n| !n.exports.is_empty() && matches!(&n.kind, MKind::Alias { src, .. } if matches!(w.m.nodes.get(src).map(|s| &s.kind), Some(MKind::Alias { .. }))));
+                if msg.contains("instance not valid to be used as export")
+                    || msg.contains("resource types are not the same")
+                    || (nested_alias_exported && (msg.contains("func not valid to be used as export") || msg.contains("type not valid to be used as export")))
+                {
                     ctx.count("encode-probe:known-C01-zone");
                 } else if msg.contains("type not valid to be used as export") && indirect_dependency_defined_later(w) {
                     ctx.violation(
